@@ -40,7 +40,7 @@ TSys == /\ Is("Sys") /\ ~dead /\ UNCHANGED <<dead, cfg>>
                   [] E.name = "unlinkat" /\ E.a = "IN"  -> \E ok \in Outcome(E.ret = 0) : UnlinkIn(ok)
                   [] E.name = "unlinkat" /\ E.a = "TMP" -> \E ok \in Outcome(E.ret = 0) : IF tmpOpen THEN UnlinkOpenTmp(ok) ELSE UnlinkTmp(ok)
                   [] OTHER -> FALSE          \* e.g. creating/writing/unlinking the target name directly
-TExit == Is("Exit") /\ ~dead /\ Exit(IF E.code = 0 THEN 0 ELSE 1) /\ UNCHANGED <<dead, cfg>>
+TExit == Is("Exit") /\ ~dead /\ Exit(IF E.code \in {0, 7} THEN E.code ELSE 1) /\ UNCHANGED <<dead, cfg>>
 TKilled == Is("Killed") /\ dead' = TRUE /\ Same
 TDir == /\ Is("Dir") /\ Same /\ UNCHANGED dead
         /\ fs["IN"] = E.din /\ ((fs["TMP"] = "absent") = (E.dtmp = "absent")) /\ (~Alias => fs["TGT"] = E.dtgt)
